@@ -58,7 +58,7 @@ Inductive event :=
 | EvAlloc (size align : Z)
 | EvRealloc (osize oalign nsize : Z)
 | EvDealloc (size align : Z)
-| EvAllocFail (size align : Z)
+| EvAllocFail (size align : Z) (hdr : option (Z * Z * Z))   (* a refused realloc: the header words at that moment *)
 | EvClone (src new : elem)
 | EvDrop (e : elem)
 | EvCall (tag : string) (args : list elem).
@@ -407,7 +407,7 @@ Section WithCfg.
 
   Definition do_alloc (size align : Z) : M (option nat) :=
     fails <- count_request size ;;
-    if fails then emit (EvAllocFail size align) ;;; ret None else
+    if fails then emit (EvAllocFail size align None) ;;; ret None else
     s <- get ;;
     let b := List.length (heap s) in
     set_heap (heap s ++ [{| b_size := size; b_align := align; h_len := 0; h_cap := 0; h_align := 0;
@@ -424,7 +424,7 @@ Section WithCfg.
         bl <- get_block b ;;
         if negb ((osize =? b_size bl) && (oalign =? b_align bl)) then ub AllocContract else
         fails <- count_request nsize ;;
-        if fails then emit (EvAllocFail nsize oalign) ;;; ret None else
+        if fails then emit (EvAllocFail nsize oalign (Some (h_len bl, h_cap bl, h_align bl))) ;;; ret None else
         s <- get ;;
         let nb := List.length (heap s) in
         (* the old block dies, a new one carries the same bytes (header words and slots) *)
